@@ -244,3 +244,15 @@ package config
 //@   loop 1 invariant 0 <= iter && iter <= len(rule.Match) && forall i int :: 0 <= i && i < iter ==> matchValid(rule.Match[i])
 //@   loop 2 invariant 0 <= iter && iter <= len(rule.Ignore) && (forall i int :: 0 <= i && i < len(rule.Match) ==> matchValid(rule.Match[i])) &&
 //@              forall i int :: 0 <= i && i < iter ==> matchValid(rule.Ignore[i])
+
+// prometheus {} blocks: every upstream URL that will later be handed to url.Parse with the error dropped
+// (promapi.Prometheus.doRequest) parses at load time: the primary uri and every failover uri.
+//@ func PrometheusConfig.validate [C18]
+//@   ensures result == nil ==> urlParses(pc.URI)
+//@   ensures result == nil ==> forall i int :: 0 <= i && i < len(pc.Failover) ==> urlParses(pc.Failover[i])
+//@   loop 1 invariant 0 <= iter && iter <= len(pc.Failover) && urlParses(pc.URI)
+//@   loop 1 invariant forall i int :: 0 <= i && i < iter ==> urlParses(pc.Failover[i])
+//@   loop 2 invariant urlParses(pc.URI) && forall i int :: 0 <= i && i < len(pc.Failover) ==> urlParses(pc.Failover[i])
+//@   loop 3 invariant urlParses(pc.URI) && forall i int :: 0 <= i && i < len(pc.Failover) ==> urlParses(pc.Failover[i])
+//@   loop 4 invariant urlParses(pc.URI) && forall i int :: 0 <= i && i < len(pc.Failover) ==> urlParses(pc.Failover[i])
+//@   loop 5 invariant urlParses(pc.URI) && forall i int :: 0 <= i && i < len(pc.Failover) ==> urlParses(pc.Failover[i])
